@@ -341,6 +341,20 @@ impl<'a> LineBreaker<'a> {
                 }
             }
 
+            // TeX.2021.879
+            // Discardable nodes at the start of the next line are pruned, up to the
+            // next breakpoint. If the line was broken at a discretionary with post-break
+            // material, that material starts the next line and nothing is pruned.
+            if disc_post_break_nodes.as_ref().is_none_or(|nodes| nodes.is_empty()) {
+                if let Some(next_break_point) = break_points.get(line_index + 1) {
+                    while start_of_line < *next_break_point
+                        && !h_list[start_of_line].non_discardable()
+                    {
+                        start_of_line += 1;
+                    }
+                }
+            }
+
             // TeX.2021.886
             // Unlike \leftskip, there is no check if the glue here is zero.
             inner_list.push(
